@@ -453,7 +453,16 @@ class Case:
         env = self.env
         env.case_no += 1
         base = os.path.join(env.wd, 'c%d_%d' % (os.getpid(), env.case_no))
-        self.ready_path, self.release_path = base + '.ready', base + '.release'
+        # every third return / sys.exit / raise child leaves with a stdout whose
+        # final flush fails (name suffix 'F' tells the child): the reported exit
+        # code must not depend on it
+        # (not under spawn: there the interpreter's own finalisation flushes
+        # stdout once more and CPython itself turns the failure into status 120)
+        fault = env.case_no % 3 == 0 and self.kind in ('return', 'sysexit', 'raise') \
+            and env.method in ('fork', 'forkserver')
+        if fault:
+            env.rec.count('stdout_flush_faults')
+        self.ready_path, self.release_path = base + '.ready', base + ('.relF' if fault else '.release')
         for x in (self.ready_path, self.release_path):
             os.mkfifo(x)
             self.paths.append(x)
